@@ -13,7 +13,10 @@
 //	   every --error-format (+ config-ignore-yaml for lint), on scratch workspaces with every subset of <= 3
 //	   planted problems, x every input shape (directory, .proto file reference, file reference with
 //	   include_package_files=true, directory + --path; naming either file) x workspace layout (one module,
-//	   two modules), on hostile input directory names, and on operational errors.
+//	   two modules), on hostile input directory names, and on operational errors;
+//	   B3 (resources.go) the resource grid: role of a resource (input, --against, -o, --config, --against-config,
+//	   --path, --exclude-path) x reference form (dir, .proto, six image spellings, four archive spellings) x state
+//	   on disk (good, missing, missing parent, dangling symlink, parent is a file, symlink loop, wrong type, garbage).
 package c20
 
 import (
@@ -28,7 +31,7 @@ import (
 )
 
 func init() {
-	evid.Register(&evid.Check{ID: "C20", Level: "exploration", Run: run, QuickBudget: 85 * time.Second, ThoroughBudget: 14 * time.Minute})
+	evid.Register(&evid.Check{ID: "C20", Level: "exploration", Run: run, QuickBudget: 240 * time.Second, ThoroughBudget: 14 * time.Minute})
 }
 
 func cpuSeconds() float64 {
@@ -46,8 +49,13 @@ func run(r *evid.Run) {
 		"B: every subset of <=3 planted problems (quick: <=2 plus the triples over one plant per kind) as a scratch workspace x every command x every --error-format through the in-process CLI, " +
 		"where a command is build, build -o, lint, breaking, or format --exit-code in each of its six output modes (stdout, -d, -w, -d -w, -o, -d -o); " +
 		"the same for every other (input shape, layout) of 7 shapes (dir, file-a, file-a+include_package_files, dir --path a, the same three for b) x 2 layouts (one module, two modules) over every subset of <=2 (quick: <=1) planted problems; " +
-		"plus hostile directory names and operational errors. An evaluation is one rendering parsed back (A) or one CLI run (B). " +
-		"Distinct non-trivial = distinct A1 pair with at least one non-'a' fragment, distinct A2 case, distinct A3 tuple of >=2 annotations, distinct (directory name, input shape, layout, planted set) workspace, distinct (operational error, workspace).")
+		"plus hostile directory names and operational errors; " +
+		"B3: every cell of resource role (input, --against, -o location, --config, --against-config, --path, --exclude-path) x reference form (directory, .proto file, image as binpb/json/txtpb/yaml/binpb.gz/#format=binpb, archive as tar/tar.gz/zip/#format=tar) " +
+		"x state on disk (good, missing, missing parent, dangling symlink, parent is a file, symlink loop, wrong type, garbage content) x command x workspace (clean, planted L1+K1+U1) x --error-format (quick: text, json). An evaluation is one rendering parsed back (A) or one CLI run (B). " +
+		"Distinct non-trivial = distinct A1 pair with at least one non-'a' fragment, distinct A2 case, distinct A3 tuple of >=2 annotations, distinct (directory name, input shape, layout, planted set) workspace, distinct (operational error, workspace), distinct (role, form, state, command, workspace) resource cell.")
+	r.Assume("B3: a resource that is missing, of the wrong type, unreachable or undecodable is not a problem in the user's sources: status 100 is demanded against only where the plant model has no source problem for the command to report independently of the resource; " +
+		"where buf may legitimately cope (creating a missing output directory, a path filter that selects nothing) status 0 is accepted if nothing was printed and the output is in place. " +
+		"Not enumerated: git and module references (network / external git), permission faults (the harness runs as root), stdin/stdout references ('-')")
 	r.Assume("text and msvs are line grammars without any escape mechanism: a newline inside a file name or message cannot be expressed, such sets are not compared in these two formats (counted as line_grammar_skipped)")
 	r.Assume("an unknown position (<=0) may be rendered as absent, 0 or 1; github-actions may omit col/endLine/endColumn when the line (resp. end line) is unknown")
 	r.Assume("an empty message or empty rule ID is degenerate ('should never happen' in the printers): placeholders such as FAILURE are accepted")
@@ -138,6 +146,38 @@ func run(r *evid.Run) {
 	if want("B2") {
 		cliOperational(ctx, r, cst, scratch)
 		phase("B_operational")
+	}
+	var rst *resStats
+	if want("B3") {
+		rst = cliResources(ctx, r, scratch)
+		phase("B_resources")
+		r.Set("B3_cli_runs", rst.runs.Load())
+		r.Set("B3_runs_by_demand", map[string]int64{"control": rst.control.Load(), "must-fail": rst.mustFail.Load(), "may-fail": rst.mayFail.Load(), "either": rst.either.Load()})
+		r.Set("B3_runs_by_exit_class", map[string]int64{"0": rst.exit0.Load(), "100": rst.exit100.Load(), "other": rst.exitOther.Load()})
+		r.Set("B3_control_runs_that_reported_a_planted_problem", rst.controlReported.Load())
+		r.Set("B3_output_runs_that_succeeded", rst.outputSucceeded.Load())
+		r.Set("B3_runs_where_a_source_problem_was_reported_before_the_resource_was_touched", rst.sourceProblemBeforeResource.Load())
+		rst.mu.Lock()
+		perRC, perForm := map[string]int{}, map[string]int{}
+		for k, v := range rst.perRoleClass {
+			perRC[k] = v
+		}
+		for k, v := range rst.perForm {
+			perForm[k] = v
+		}
+		rst.mu.Unlock()
+		r.Set("B3_runs_per_role_and_failure_class", perRC)
+		r.Set("B3_runs_per_reference_form", perForm)
+		if !r.Expired() && only == "" {
+			if rst.control.Load() == 0 || rst.controlReported.Load() == 0 || rst.mustFail.Load() == 0 || rst.mayFail.Load() == 0 || rst.outputSucceeded.Load() == 0 {
+				r.Incomplete("vacuous: the resource grid had no control run / no control run that reported a planted problem / no must-fail or may-fail cell / no output written")
+			}
+			for _, role := range []string{"input", "against", "output", "config", "against-config", "path", "exclude-path"} {
+				if perRC[role+"/not-exist"] == 0 || perRC[role+"/ok"] == 0 {
+					r.Incomplete("vacuous: no run with a non-existent / a good resource in role " + role)
+				}
+			}
+		}
 	}
 
 	r.Set("B_cli_runs", cst.runs.Load())
